@@ -420,7 +420,16 @@ impl VisitMut for Marker {
                 self.next_loop += 1;
                 self.loops.push((n, line, "for".into()));
                 if let Some(fname) = self.wrap_iter.get(&n) {
-                    if let Ok(fp) = parse_str::<syn::Path>(fname) {
+                    if let Some(meth) = fname.strip_prefix('.') {
+                        // `.iter` : `for x in &M` / `for x in M` -> `for x in M.iter()`
+                        let m = Ident::new(meth.trim_end_matches("()"), Span::call_site());
+                        let it: Expr = match &*f.expr {
+                            Expr::Reference(r) => (*r.expr).clone(),
+                            other => other.clone(),
+                        };
+                        let ne: Expr = parse_quote!(#it.#m());
+                        f.expr = Box::new(ne);
+                    } else if let Ok(fp) = parse_str::<syn::Path>(fname) {
                         let it = &f.expr;
                         let ne: Expr = parse_quote!(#fp(#it));
                         f.expr = Box::new(ne);
